@@ -1015,6 +1015,7 @@ pub struct ObjFiber {
     pub(crate) pending_exception: Value,
     pub(crate) exc_handlers: Vec<ExcHandler>,
     pub(crate) return_ip: Option<*const u8>,
+    pub(crate) return_handler_count: usize,
     pub(crate) error_ip: Option<*const u8>,
     pub(crate) handling_exception: bool,
 }
@@ -1040,6 +1041,7 @@ impl ObjFiber {
             pending_exception: Value::None,
             exc_handlers: Vec::new(),
             return_ip: None,
+            return_handler_count: 0,
             error_ip: None,
             handling_exception: false,
         }
